@@ -104,6 +104,12 @@ def eval_args(I, arg_nodes, env, place_idx, param_tys=None):
     for i, a in enumerate(arg_nodes):
         want_place = i in place_idx or (param_tys is not None and i < len(param_tys) and param_tys[i].startswith("&mut "))
         if want_place:
+            b_ = a
+            while b_["k"] in ("AddrOf", "Unary") and "e" in b_:
+                b_ = b_["e"]
+            if b_["k"] == "Path" and b_["res"].get("k") == "Local" and (b_.get("ty") or "").startswith("&mut ") and isinstance(env.get(b_["res"]["id"]), (Sc, IntV, Pt)):
+                # a local of type &mut T that holds a plain value lost its referent on the way: a write through it would vanish
+                raise Unanalysable("place behind a mutable reference is not tracked", FX.short(a.get("sp")))
             out.append(I.place(a, env))
         else:
             out.append(I.ev(a, env))
@@ -685,9 +691,20 @@ def m_clone(I, a, e, ci):
     return I.copy_val(v)
 
 
-@model("core::slice::<impl [T]>::iter", "std::iter::IntoIterator::into_iter", "std::vec::Vec::<T, A>::drain")
+@model("core::slice::<impl [T]>::iter", "std::vec::Vec::<T, A>::drain")
 def m_iter(I, a, e, ci):
     return I.to_iter(a[0], e)
+
+
+@model("std::iter::IntoIterator::into_iter", places=(0,))
+def m_into_iter(I, a, e, ci):
+    """`for x in &mut v[..]` iterates mutably (like iter_mut); every other receiver is read"""
+    arg = (e.get("args") or [e.get("recv")] or [None])[0] if e.get("k") == "Call" else e.get("recv")
+    ty = (arg or {}).get("ty") or ""
+    v = I.deref(a[0].get())
+    if ty.startswith("&mut ") and isinstance(v, Vec):
+        return IterV(v, by_ref_mut=a[0])
+    return I.to_iter(v, e)
 
 
 @model("core::slice::<impl [T]>::iter_mut", places=(0,))
@@ -1462,3 +1479,30 @@ def m_count(I, a, e, ci):
     if itv.vec is None:
         raise Unanalysable("count of an unbounded iterator")
     return IntV(itv.vec.length())
+
+
+@model("ark_serialize::CanonicalSerialize::uncompressed_size", "ark_serialize::CanonicalSerialize::compressed_size", "ark_serialize::CanonicalSerialize::serialized_size")
+def m_enc_size(I, a, e, ci):
+    """byte length of an encoding: a fixed, non-negative number per type and mode (used for pre-sizing buffers)"""
+    mode = (ci.get("path") or "").split("::")[-1]
+    return IntV(isym("encsize_" + mode))
+
+
+@model("ark_ff::Field::neg_in_place", places=(0,))
+def m_neg_in_place(I, a, e, ci):
+    x = I.deref(a[0].get())
+    if not isinstance(x, Sc):
+        raise Unanalysable(f"neg_in_place of {x!r}")
+    a[0].set(Sc(-x.e))
+    return a[0]
+
+
+@model("std::iter::FromIterator::from_iter")
+def m_from_iter(I, a, e, ci):
+    ty = e.get("ty", "")
+    if not ty.startswith(("std::vec::Vec", "alloc::vec::Vec")):
+        raise Unanalysable(f"FromIterator::from_iter into {ty}", FX.short(e.get("sp")))
+    it = I.to_iter(a[0], e)
+    if it.vec is None:
+        raise Unanalysable("from_iter of an unbounded iterator")
+    return Vec(it.vec.segs)
